@@ -10,6 +10,8 @@ import Driver.SessCmd
 import Driver.ApiCmd
 import Driver.AgentCmd
 import Driver.LinCmd
+import Driver.PolCmd
+import Driver.HookCmd
 open Whawty Whawty.Proto
 
 def unknownMsg : Bytes := [117, 110, 107, 110, 111, 119, 110]   -- "unknown"
@@ -86,7 +88,7 @@ def predict (cmd : List String) : Option String :=
     if script.startsWith "R" || sent.isEmpty then pure s!"{rc} {sBytes sent}" else pure s!"{rc} *"
   | ["pam.enc", u, p] => do
     pure s!"ok {sBytes (Sasl.pamEncode (← pBytes u) (← pBytes p))}"
-  | _ => ((StoreCmd.predict cmd).orElse fun _ => TraceCmd.predict cmd).orElse fun _ => (CfgCmd.predict cmd).orElse fun _ => (SessCmd.predict cmd).orElse fun _ => (ApiCmd.predict cmd).orElse fun _ => (AgentCmd.predict cmd).orElse fun _ => LinCmd.predict cmd
+  | _ => ((StoreCmd.predict cmd).orElse fun _ => TraceCmd.predict cmd).orElse fun _ => (CfgCmd.predict cmd).orElse fun _ => (SessCmd.predict cmd).orElse fun _ => (ApiCmd.predict cmd).orElse fun _ => (AgentCmd.predict cmd).orElse fun _ => (LinCmd.predict cmd).orElse fun _ => (PolCmd.predict cmd).orElse fun _ => HookCmd.predict cmd
 
 def handle (line : String) : String :=
   let toks := (line.splitOn " ").filter (· ≠ "")
